@@ -4,6 +4,7 @@ from __future__ import annotations
 import ast
 from typing import Dict, List, Optional, Set
 
+from ..callgraph import callgraph
 from ..cfg import cfg_of, dominating_edges, edge_dominates, node_calls, reach
 from ..defuse import def_value, defs_of, reaching_defs, resolve_alias
 from ..esp import UNKNOWN, run_method
@@ -26,12 +27,18 @@ def check(repo: Repo, rep, tier):
     align_window(repo, rep)
     key_routing(repo, rep)
     argument_agree(repo, rep)
+    align_operands(repo, rep)
     from .C02 import frame_locals
 
     frame_locals(repo, rep)
-    from .C05 import flag_label
+    from .C05 import flag_label, positional_map
 
     flag_label(repo, rep)
+    positional_map(repo, rep)
+    from .C18 import write_fresh
+
+    # what is written is what was approved: an unapproved update of an unchanged element must not reach the file
+    write_fresh(repo, rep)
     from .C03 import char_units, range_prov
 
     range_prov(repo, rep)
@@ -295,7 +302,26 @@ def equal_keeps(repo: Repo, rep):
             if not ys and o.ret != old:
                 rep.violation("R-EQUAL-KEEPS", f, f.node, "an unchanged leaf does not return its old value", trace_str(o), construct="equal-ret")
                 bad = True
-        elif a is False:
+        if not ys and a is not True:
+            # completeness: a leaf is kept without a change only when it was found equal - or when it is one of the two kinds the
+            # user controls (an Unmanaged wrapper, an f-string node)
+            def _audited(t, v_):
+                return v_ is True and isinstance(t, tuple) and t[0] == "call" and t[1] == "isinstance" and len(t[2]) == 2 and (
+                    (t[2][0] == old and "Unmanaged" in str(t[2][1])) or (t[2][0] == ("param", f.params[2]) and "JoinedStr" in str(t[2][1]))
+                )
+
+            if not any(_audited(t, v_) for t, v_ in o.p.assume):
+                rep.violation(
+                    "R-EQUAL-KEEPS",
+                    f,
+                    f.node,
+                    "ValueAdapter.assign can keep the old leaf without having found it equal to the new value (an early return that is neither the Unmanaged nor the f-string case): "
+                    "a wrong value is never reported as fix, `--inline-snapshot=fix` leaves it in the file",
+                    trace_str(o),
+                    construct="kept-without-compare",
+                )
+                bad = True
+        if a is False:
             n += 1
             if "update" in flags:
                 rep.violation("R-EQUAL-KEEPS", f, f.node, "ValueAdapter.assign labels a change of a differing leaf `update`", trace_str(o), construct="unequal-update")
@@ -303,6 +329,92 @@ def equal_keeps(repo: Repo, rep):
     if not bad:
         rep.ok("R-EQUAL-KEEPS", f, f.node, f"{n} paths: equal => nothing or update; unequal => fix/create")
     rep.floor("R-EQUAL-KEEPS", "paths deciding on old == new", n, 3)
+
+
+def align_operands(repo: Repo, rep):
+    rep.rule(
+        "R-ALIGN-OPERANDS",
+        "the alignment compares `<element of the snapshot> == <observed element>` - the stored element on the left - in every equality test of _align.py "
+        "between elements of its two sequences, and SequenceAdapter hands it (old value, new value) in this order.  Matchers written in the snapshot "
+        "(Is(x), dirty-equals, mock.ANY) define `__eq__` on their own side only: with the operands swapped an object with a strict `__eq__` answers False, "
+        "the matcher is not aligned as unchanged and is deleted / re-generated from the observed value",
+    )
+    m = repo.module("_align.py")
+    n = 0
+    for f in m.funcs.values():
+        if len(f.params) < 2:
+            continue
+        pa, pb = f.params[0], f.params[1]
+
+        def origin(name, at):
+            # which parameter sequence does the loop variable `name` enumerate at this comparison?
+            org = None
+            for a in ancestors(at):
+                tg_it = []
+                if isinstance(a, (ast.For, ast.AsyncFor)):
+                    tg_it.append((a.target, a.iter))
+                if isinstance(a, (ast.ListComp, ast.SetComp, ast.GeneratorExp, ast.DictComp)):
+                    tg_it += [(g.target, g.iter) for g in a.generators]
+                for tg, it in tg_it:
+                    pairs = []
+                    if isinstance(it, ast.Call) and isinstance(it.func, ast.Name) and it.func.id == "zip" and isinstance(tg, (ast.Tuple, ast.List)) and len(tg.elts) == len(it.args):
+                        pairs = list(zip(tg.elts, it.args))
+                    elif isinstance(it, ast.Call) and isinstance(it.func, ast.Name) and it.func.id == "enumerate" and isinstance(tg, (ast.Tuple, ast.List)) and len(tg.elts) == 2 and it.args:
+                        pairs = [(tg.elts[1], it.args[0])]
+                    else:
+                        pairs = [(tg, it)]
+                    for t, src in pairs:
+                        if isinstance(t, ast.Name) and t.id == name and org is None:
+                            names = {x.id for x in ast.walk(src) if isinstance(x, ast.Name)}
+                            if pa in names and pb not in names:
+                                org = "a"
+                            elif pb in names and pa not in names:
+                                org = "b"
+                if a is f.node:
+                    break
+            return org
+
+        for x in body_nodes(f.node):
+            if isinstance(x, ast.Compare) and len(x.ops) == 1 and isinstance(x.ops[0], (ast.Eq, ast.NotEq)) and isinstance(x.left, ast.Name) and isinstance(x.comparators[0], ast.Name):
+                lo, ro = origin(x.left.id, x), origin(x.comparators[0].id, x)
+                if lo is None or ro is None or lo == ro:
+                    continue
+                n += 1
+                if (lo, ro) == ("a", "b"):
+                    rep.ok("R-ALIGN-OPERANDS", f, x, f"`{norm(x)}`: stored element on the left")
+                else:
+                    rep.violation(
+                        "R-ALIGN-OPERANDS",
+                        f,
+                        x,
+                        f"{f.qualname} tests `{norm(x)}` with the observed element on the left: a matcher written in the snapshot (Is(..), dirty-equals) is asked through the reflected `__eq__` only - "
+                        "an observed object with a strict `__eq__` answers False, the matcher counts as changed and is replaced by generated code",
+                        construct=f"{f.qualname}:operands",
+                    )
+    rep.floor("R-ALIGN-OPERANDS", "element comparisons in _align.py", n, 3)
+    # the caller: align(old, new)
+    cg = callgraph(repo)
+    calls = [(cf, c) for cf, c, how in cg.callers.get("_align.py::align", []) if not cf.module.rel.startswith("@")]
+    rep.floor("R-ALIGN-OPERANDS", "align() call sites", len(calls), 1)
+    for cf, c in calls:
+        if len(c.args) != 2 or len(cf.params) < 4:
+            rep.undecided("R-ALIGN-OPERANDS", f"{cf.key}: align() call of an unknown shape")
+            continue
+        ccfg = cfg_of(cf)
+        at = ccfg.nodes_containing(c)
+        old_p, new_p = cf.params[1], cf.params[3]
+
+        def from_param(e):
+            if isinstance(e, ast.Name) and at:
+                e2 = resolve_alias(ccfg, at[0], e)
+                return {x.id for x in ast.walk(e2) if isinstance(x, ast.Name)} | {e.id}
+            return {x.id for x in ast.walk(e) if isinstance(x, ast.Name)}
+
+        a0, a1 = from_param(c.args[0]), from_param(c.args[1])
+        if old_p in a0 and new_p in a1 and new_p not in a0 and old_p not in a1:
+            rep.ok("R-ALIGN-OPERANDS", cf, c, "align(old value, new value)")
+        else:
+            rep.violation("R-ALIGN-OPERANDS", cf, c, f"{cf.qualname} calls `{short(c, 50)}`: the stored value is not the first sequence, the edit script (and the side of every `==`) is reversed", construct=f"{cf.qualname}:align-args")
 
 
 def by_key(repo: Repo, rep):
